@@ -36,7 +36,9 @@ Qed.
 Definition exportable (s : istate) : Prop :=
   (exists id, i_suite s = Some id /\ suite_known id = true) /\
   i_version s <> v13 /\
-  i_local_epoch s < N.of_nat (length (i_local_seq s)).
+  i_local_epoch s < N.of_nat (length (i_local_seq s)) /\
+  (* the keys are switched on: generateInternalState refuses anything earlier *)
+  i_local_epoch s <> 0 /\ i_master s <> [].
 
 (* the result of the whole round trip, explicitly *)
 Definition imported (s : istate) (id : N) : istate :=
@@ -60,9 +62,10 @@ Definition imported (s : istate) (id : N) : istate :=
 Lemma import_export_eq s id :
   i_suite s = Some id -> suite_known id = true -> i_version s <> v13 ->
   i_local_epoch s < N.of_nat (length (i_local_seq s)) ->
+  i_local_epoch s <> 0 -> i_master s <> [] ->
   import_export s = Some (imported s id).
 Proof.
-  intros Hs Hk Hv Hl.
+  intros Hs Hk Hv Hl He0 Hm.
   pose proof (suite_known_nonzero id Hk) as Hnz.
   unfold import_export, gen_state. rewrite Hs.
   destruct (i_version s =? v13) eqn:Ev; [apply N.eqb_eq in Ev; contradiction|].
@@ -74,15 +77,18 @@ Proof.
   unfold unmarshal. cbn [s_version]. change (v12 =? v13) with false. cbn iota.
   unfold deserialize. cbn [s_version s_suite p_suite]. change (v12 =? v_zero) with false. cbn iota.
   rewrite Hk.
-  unfold gen_internal. cbn [p_suite p_version]. rewrite E0. change (v12 =? v13) with false.
-  rewrite Hk. cbn [negb]. cbn iota.
-  reflexivity.
+  unfold gen_internal, pre_keys. cbn [p_suite p_version p_local_epoch p_master s_local_epoch s_master]. rewrite E0.
+  change (v12 =? v13) with false.
+  destruct (i_local_epoch s =? 0) eqn:Ee; [apply N.eqb_eq in Ee; contradiction|].
+  destruct (i_master s) as [|m0 ms] eqn:Em; [contradiction|].
+  rewrite Hk. cbn [negb orb]. cbn iota.
+  unfold imported. rewrite Em. reflexivity.
 Qed.
 
 Lemma exportable_import s : exportable s -> exists id, i_suite s = Some id /\ suite_known id = true /\
   import_export s = Some (imported s id).
 Proof.
-  intros [[id [Hs Hk]] [Hv Hl]]. exists id. repeat split; try assumption.
+  intros [[id [Hs Hk]] [Hv [Hl [He0 Hm]]]]. exists id. repeat split; try assumption.
   now apply import_export_eq.
 Qed.
 
@@ -100,10 +106,16 @@ Proof.
     unfold unmarshal in H. cbn [s_version] in H. change (v12 =? v13) with false in H. cbn iota in H.
     unfold deserialize in H at 1. cbn [p_suite s_suite] in H.
     destruct (suite_known id) eqn:Hk; [|discriminate].
-    repeat split.
-    + exists id. split; [exact Hs|exact Hk].
-    + apply N.eqb_neq. exact Ev.
-    + apply N.leb_gt in El. exact El.
+    unfold gen_internal, pre_keys, deserialize in H.
+    cbn [p_suite p_version p_local_epoch p_master s_local_epoch s_master s_suite s_version] in H.
+    change (v12 =? v_zero) with false in H. cbn iota in H.
+    rewrite E0 in H. change (v12 =? v13) with false in H. cbn iota in H.
+    destruct (i_local_epoch s =? 0) eqn:Ee; [discriminate|].
+    destruct (i_master s) as [|m0 ms] eqn:Em; [discriminate|].
+    split; [exists id; split; [exact Hs|exact Hk]|].
+    split; [apply N.eqb_neq; exact Ev|].
+    split; [apply N.leb_gt in El; exact El|].
+    split; [apply N.eqb_neq; exact Ee|rewrite Em; discriminate].
   - intros He. destruct (exportable_import s He) as [id [_ [_ H]]]. eexists. exact H.
 Qed.
 
@@ -160,6 +172,8 @@ Proof.
     destruct (i_profile s =? 0); reflexivity.
   - cbn. discriminate.
   - cbn. rewrite app_length, repeat_length. cbn [length]. lia.
+  - cbn. destruct He as [_ [_ [_ [He0 _]]]]. exact He0.
+  - cbn. destruct He as [_ [_ [_ [_ Hm]]]]. exact Hm.
 Qed.
 
 (* ------------------------------------------------------------------ no panic once established *)
